@@ -146,6 +146,21 @@ func (m *ConsensusManager) kernel(ctx context.Context) {
 	}
 }
 
+// sendHashSelection delivers a strategy result to the round's result channel.
+//
+// The result channels are 1-buffered and the state machine takes at most one result
+// per channel. If the buffer is already occupied, an earlier result is still unread,
+// which means this one would be ignored anyway (the state machine has made its choice
+// or has left the round). Blocking on that send would stall the consensus manager,
+// and with it the state machine's next EnterRound request, forever.
+func (m *ConsensusManager) sendHashSelection(out chan HashSelection, hs HashSelection, call string) {
+	select {
+	case out <- hs:
+	default:
+		m.log.Debug("Dropping stale consensus strategy result", "call", call)
+	}
+}
+
 func (m *ConsensusManager) handleEnterRound(ctx context.Context, req EnterRoundRequest) {
 	defer trace.StartRegion(ctx, "handleEnterRound").End()
 
@@ -167,31 +182,19 @@ func (m *ConsensusManager) handleConsiderPBs(ctx context.Context, req ConsiderPr
 		return
 	}
 
-	_ = gchan.SendC(
-		ctx, m.log,
-		req.Result, HashSelection{Hash: hash, Err: err},
-		"sending ConsiderProposedBlocks result",
-	)
+	m.sendHashSelection(req.Result, HashSelection{Hash: hash, Err: err}, "ConsiderProposedBlocks")
 }
 
 func (m *ConsensusManager) handleChoosePB(ctx context.Context, req ChooseProposedBlockRequest) {
 	defer trace.StartRegion(ctx, "handleChoosePB").End()
 
 	hash, err := m.strat.ChooseProposedBlock(ctx, req.PHs)
-	_ = gchan.SendC(
-		ctx, m.log,
-		req.Result, HashSelection{Hash: hash, Err: err},
-		"sending ChooseProposedBlock result",
-	)
+	m.sendHashSelection(req.Result, HashSelection{Hash: hash, Err: err}, "ChooseProposedBlock")
 }
 
 func (m *ConsensusManager) handleDecidePrecommit(ctx context.Context, req DecidePrecommitRequest) {
 	defer trace.StartRegion(ctx, "handleDecidePrecommit").End()
 
 	hash, err := m.strat.DecidePrecommit(ctx, req.VS)
-	_ = gchan.SendC(
-		ctx, m.log,
-		req.Result, HashSelection{Hash: hash, Err: err},
-		"sending DecidePrecommit result",
-	)
+	m.sendHashSelection(req.Result, HashSelection{Hash: hash, Err: err}, "DecidePrecommit")
 }
